@@ -505,20 +505,20 @@ var c07ReflectSafe = map[string]bool{"ValueOf": true, "TypeOf": true, "Indirect"
 
 // function/method -> why the precondition holds (frozen; a new pair is reported)
 var c07ReflectAudit = map[string]string{
-	"encodeFile/NumField":       "file is reflect.ValueOf(*container): a struct (Encode's switch, C03-5)",
-	"encodeFile/Field":          "index i runs below NumField()",
-	"encodeFile/Len":            "under Kind() == Slice",
-	"encodeFile/Index":          "indices j, k run below Len()",
-	"encodeFile/Interface":      "valid value of an exported container member",
-	"getEncodeMesgDef/Type":     "mesg is valid: encodeDefAndDataMesg tests IsValid(); encodeFile passes Indirect of a container element (nil elements placed through the public API are outside the decoded Files this property quantifies over)",
-	"getEncodeMesgDef/NumField": "mesg and its all-invalid twin are message structs of the same type (C15-1-type)",
-	"getEncodeMesgDef/Field":    "index i runs below NumField()",
-	"getEncodeMesgDef/IsNil":    "under Kind() == Slice",
-	"getEncodeMesgDef/Len":      "under Kind() == Slice",
+	"encodeFile/NumField":        "file is reflect.ValueOf(*container): a struct (Encode's switch, C03-5)",
+	"encodeFile/Field":           "index i runs below NumField()",
+	"encodeFile/Len":             "under Kind() == Slice",
+	"encodeFile/Index":           "indices j, k run below Len()",
+	"encodeFile/Interface":       "valid value of an exported container member",
+	"getEncodeMesgDef/Type":      "mesg is valid: encodeDefAndDataMesg tests IsValid(); encodeFile passes Indirect of a container element (nil elements placed through the public API are outside the decoded Files this property quantifies over)",
+	"getEncodeMesgDef/NumField":  "mesg and its all-invalid twin are message structs of the same type (C15-1-type)",
+	"getEncodeMesgDef/Field":     "index i runs below NumField()",
+	"getEncodeMesgDef/IsNil":     "under Kind() == Slice",
+	"getEncodeMesgDef/Len":       "under Kind() == Slice",
 	"getEncodeMesgDef/Interface": "exported message fields of a valid struct value",
-	"getMesgAllInvalid/Elem":    "constructors return a pointer to their message struct (C15-1-ctor)",
-	"writeMesg/Field":           "f.sindex is below NumField for every row of the message (C15-2)",
-	"writeField/Interface":      "exported message field",
-	"writeField/Len":            "array flag <-> slice type (C15-3)",
-	"writeField/Index":          "i runs below min(Len(), length)",
+	"getMesgAllInvalid/Elem":     "constructors return a pointer to their message struct (C15-1-ctor)",
+	"writeMesg/Field":            "f.sindex is below NumField for every row of the message (C15-2)",
+	"writeField/Interface":       "exported message field",
+	"writeField/Len":             "array flag <-> slice type (C15-3)",
+	"writeField/Index":           "i runs below min(Len(), length)",
 }
